@@ -720,6 +720,26 @@ func genWithProfile(prop string, seed uint64, idx int, r *Rng, p Profile) *Scena
 			sc.MeasW[i] = float64(r.Range(5, 100)) / 100
 		}
 		sc.MeasMode = "1"
+		// a fifth of the measurement files give the water contents as absolute volumetric ("3") or gravimetric ("2") values
+		// instead of fractions of the available water (only for soils without stones and without explicit / transfer-function
+		// parameters, whose pore volume can be small: a measured content must fit into the pores)
+		if rm := NewRng(mix(mix(seed, uint64(idx)), 3131)); rm.Bool(0.2) && sc.PTF == 0 {
+			ok := true
+			for _, h := range sc.Soil.Horizons {
+				if h.Stone > 0 || h.FC > 0 {
+					ok = false
+				}
+			}
+			if ok {
+				sc.MeasMode = pickS(rm, []string{"3", "2"})
+				for i := 0; i < 6; i++ {
+					sc.MeasW[i] = float64(rm.Range(80, 250)) / 1000
+					if sc.MeasMode == "2" {
+						sc.MeasW[i] = float64(rm.Range(50, 150)) / 1000
+					}
+				}
+			}
+		}
 	}
 
 	// ---------------- output configurations ----------------
@@ -937,6 +957,13 @@ func genSoil(sc *Scenario, r *Rng, p Profile) {
 		}
 		if stony {
 			h.Stone = r.Range(0, 90)
+		}
+		if h.Texture[0] == 'H' && route == 0 {
+			// (texture-table route only: the transfer functions are made for mineral soils) a peat horizon mostly carries the organic carbon of peat (the potential mineralisation has branches of its own
+			// above 5 % and above 14 %)
+			if rc := NewRng(mix(mix(sc.Seed, uint64(sc.Index)), uint64(1500+b))); rc.Bool(0.7) {
+				h.Corg = float64(rc.Range(60, 450)) / 10 // one decimal: the fixed-width soil file has four characters for it
+			}
 		}
 		h.CN = pickI(r, []int{0, 10, 10, 8, 12, 15})
 		if s.CSV && r.Bool(0.3) {
